@@ -489,8 +489,15 @@ class Rewriter:
         if node.constructed:
             kids = list(node.children)
             if node.kind == 'set' and len(kids) > 1:
-                k = self._pick('perm', min(6, math.factorial(len(kids))))
-                kids = list(list(itertools.permutations(kids))[k])           # 8.11: any order in BER
+                n = len(kids)
+                if n <= 4:
+                    perms = list(itertools.permutations(range(n)))            # every order (<= 24)
+                else:
+                    idx = list(range(n))
+                    perms = [tuple(idx), tuple(reversed(idx)), tuple(idx[1:] + idx[:1]), tuple(idx[-1:] + idx[:-1]),
+                             tuple([idx[1], idx[0]] + idx[2:]), tuple(idx[:-2] + [idx[-1], idx[-2]])]
+                k = self._pick('perm', len(perms))
+                kids = [kids[i] for i in perms[k]]                           # 8.11: any order in BER
             body = []
             for ch in kids:
                 body.extend(self.emit(ch))
